@@ -25,6 +25,7 @@ materializing the defaulted values can make the configuration archive somewhat
 more hermetic.
 """
 
+import dataclasses
 from typing import Any
 
 from fiddle._src import config
@@ -55,6 +56,12 @@ def materialize_defaults(value: Any) -> None:
       parameters = node.__signature_info__.parameters.values()
       for index, arg in enumerate(parameters):
         if arg.default is arg.empty:
+          continue
+        if dataclasses.is_dataclass(
+            node.__fn_or_cls__
+        ) and config._field_uses_default_factory(node.__fn_or_cls__, arg.name):  # pylint: disable=protected-access
+          # `default_factory` fields have no default value (reading them from
+          # the Buildable raises); inspect.signature reports a sentinel object.
           continue
         if arg.kind == arg.POSITIONAL_ONLY:
           # Positional-only arguments are stored (and set) by index.
